@@ -2,7 +2,7 @@
    strings = space separated code points; items separated by ';', sub-fields by ','
      ops      : kind(P|X),title,ns,revid(N = none),expanded(0|1),json,text
      redirects: src,dst          rtab: text,target (redirect matcher oracle)        images: stored title
-     queries  : G,name,rev(N|int)  |  M,name,dns  |  I,name  |  F,title (fs_escape)
+     queries  : G,name,rev(N|int)  |  M,name,dns  |  I,name  |  F,title (fs_escape)  |  Q,name,dns (get_fqname)
    output: <file>|<answers joined by ';'>   page answer: N or title,ns,revid,expanded,text ; image answer: N or name ; K = KeyError
            READERR|... when the reader fails *)
 open C14_model
@@ -51,6 +51,8 @@ let () =
                 | ["I"; name] -> (match q_image st en imgs (str_of_field name) with
                     | KeyError -> "K" | Ok None -> "N" | Ok (Some n) -> "S" ^ field_of_str n)
                 | ["F"; t] -> "S" ^ field_of_str (fs_escape (str_of_field t))
+                | ["Q"; name; dns] -> (match py_get_fqname st (str_of_field name) (z_of_int (int_of_string (String.trim dns))) with
+                    | KeyError -> "K" | Ok fq -> "S" ^ field_of_str fq)
                 | _ -> "BADQ") (items qs) in
             print_string (field_of_str file ^ "|" ^ String.concat ";" ans ^ "\n"))
        | _ -> print_string "NOSITE\n")
